@@ -231,19 +231,13 @@ impl Gen<'_> {
         let w = self.who();
         let b = self.bucket(true);
         let k = self.key();
-        if self.clean && !self.sim.buckets.contains_key(&b) {
-            return None;
-        }
         if self.conflicts(&b, &k) {
             return None;
         }
         let len = if k.ends_with('/') && self.rng.chance(3, 4) { 0 } else { self.size() };
         let c = self.new_content(len);
-        let mut m = self.meta();
+        let m = self.meta();
         let pair = (b.clone(), k.clone());
-        if self.clean && m.is_none() && self.sim.metafile.contains(&pair) {
-            m = Some(vec![("m".to_owned(), "again".to_owned())]);
-        }
         let mut all_ok = true;
         let mut cks = Vec::new();
         if self.rng.chance(1, 6) {
@@ -263,12 +257,13 @@ impl Gen<'_> {
         let x = if cks.is_empty() { "-".to_owned() } else { cks.join(",") };
         let l = if k.ends_with('/') && self.rng.chance(1, 2) { len.to_string() } else { "-".to_owned() };
         if all_ok {
-            self.ensure_bucket_wild(&b);
             self.sim.maybe.insert(pair.clone());
             if let Some(objs) = self.sim.buckets.get_mut(&b) {
                 objs.insert(k.clone(), len);
                 if m.is_some() {
                     self.sim.metafile.insert(pair.clone());
+                } else {
+                    self.sim.metafile.remove(&pair);
                 }
                 if cks.is_empty() {
                     self.sim.cksfile.remove(&pair);
@@ -335,17 +330,6 @@ impl Gen<'_> {
         // a path that may be a directory is only read without a range (what the OS does then is not modelled)
         if k.ends_with('/') || k == "t" {
             r = "-".to_owned();
-        }
-        if self.clean {
-            if let Some(n) = r.strip_prefix('s') {
-                let n: u64 = n.parse().unwrap();
-                match len {
-                    Some(l) if l > 0 && n <= l as u64 => {}
-                    Some(_) if n == 0 => {}
-                    None => {}
-                    _ => return None,
-                }
-            }
         }
         Some(format!("get:{w}:{}:{}:{r}", hs(&b), hs(&k)))
     }
@@ -421,7 +405,7 @@ impl Gen<'_> {
         let dst = (db.clone(), dk.clone());
         let self_copy = sb == db && canon(&sk) == canon(&dk);
         if self.clean {
-            if !self.sim.buckets.contains_key(&sb) || self_copy {
+            if !self.sim.buckets.contains_key(&sb) {
                 return None;
             }
             if !(self.sim.metafile.contains(&src) || !self.sim.metafile.contains(&dst)) {
@@ -433,7 +417,7 @@ impl Gen<'_> {
         } else if self_copy && !self.rng.chance(1, 4) {
             return None;
         }
-        if let Some(len) = self.live(&sb, &sk) {
+        if let (Some(len), false) = (self.live(&sb, &sk), self_copy) {
             if self.sim.buckets.contains_key(&db) {
                 self.sim.buckets.get_mut(&db).unwrap().insert(dk.clone(), len);
                 self.sim.maybe.insert(dst.clone());
@@ -523,11 +507,15 @@ impl Gen<'_> {
         let w = self.who();
         let b = self.bucket(true);
         let k = self.key();
-        if k.ends_with('/') || (self.clean && !self.sim.buckets.contains_key(&b)) {
+        if k.ends_with('/') {
             return None;
         }
         let m = self.meta();
-        self.sim.ups.push(Up { owner: w, bucket: b.clone(), key: k.clone(), has_meta: m.is_some(), parts: BTreeMap::new(), alive: true });
+        // the backend issues an id only for an admissible key in an existing bucket (and when the metadata file fits)
+        let key_ok = !k.starts_with('/') && k.split('/').all(|x| x != "..") && k.split('/').any(|x| !x.is_empty() && x != ".");
+        if key_ok && self.sim.buckets.contains_key(&b) && !(m.is_some() && k.len() > 120) {
+            self.sim.ups.push(Up { owner: w, bucket: b.clone(), key: k.clone(), has_meta: m.is_some(), parts: BTreeMap::new(), alive: true });
+        }
         Some(format!("mpc:{w}:{}:{}:{}", hs(&b), hs(&k), meta_str(m.as_ref())))
     }
 
